@@ -10,13 +10,14 @@ use std::sync::{Arc, Mutex};
 
 // the last four contain a lone % or $ (followed by a harmless character): plain text, not a reference
 const LIT: [&str; 18] = ["a", "b", " ", "{", "}", ":", "-", "#", "=", "x y", "1", ".", "{}", "é", "50% off", "% x", "5$ y", "a%b"];
-const NAMES: [&str; 8] = ["x", "y", "long_name", "a.b", "n1", "größe", "файлы", "é"];
+// (PATH and HOME are set in the process environment: a name that is undefined IN THE SCRIPT expands to nothing all the same)
+const NAMES: [&str; 10] = ["x", "y", "long_name", "a.b", "n1", "größe", "файлы", "é", "PATH", "HOME"];
 const VALS: [&str; 20] = ["", "v", "two words", "${x}", "%{y}", "\\${x}", "a}b", "$", "%", " lead", "q\"uote", "back\\slash", "end\n", "a b\t", "w\r\n", "trail ", "\u{a0}nb", "\\\\srv\\share x", "a \\d+", "\\"];
 
 pub fn gen(r: &mut Rng) -> Value {
     let mut env = serde_json::Map::new();
     for n in NAMES.iter() {
-        if r.chance(2, 3) {
+        if r.chance(2, 3) && *n != "PATH" && (*n != "HOME" || r.chance(1, 2)) {
             env.insert(n.to_string(), json!(r.pick(&VALS)));
         }
     }
